@@ -121,6 +121,12 @@ def do_replay(path):
     want = rep["oracle"]
     hit = [f for f in res["findings"] if f["oracle"] == want]
     if hit:
+        k = classify(prop, desc, hit[0], load_known())
+        if k:
+            # the replay reproduces a listed open finding: same line and exit code as the check itself gives
+            print(f"KNOWN-FINDING: property={prop} {k['id']}: {k['text']} (reproduced; replay={path})")
+            print(json.dumps(hit[0], default=str)[:2000])
+            return 0
         print(f"VIOLATION property={prop} replay={path}")
         print(json.dumps(hit[0], default=str)[:2000])
         return 1
